@@ -96,7 +96,7 @@ def rename_predicates(prog, rnd, macros=()):
   return Program(rules, anns, prog.ext, prog.engine_line), m
 
 
-def base_case(seed, families=('core', 'agg', 'rec')):
+def base_case(seed, families=('core', 'agg', 'rec', 'layered', 'sugarbase')):
   fam = families[seed % len(families)]
   return getattr(gen, fam + '_case')(seed // len(families))
 
@@ -815,7 +815,7 @@ def c17_pairs(seed):
   elif nkind == 'three_consumers' and mkind == 'helper':
     # Tt (aggregate over the two-rule T2) is shared by two grounded predicates and the dependant
     rules.append(Rule('M2', [x, y], body=Conj([Atom('Tt', [x], [('total', y)]), Cmp('<=', y, Num(1))])))
-    rules.append(Rule('N', [x, z], body=Conj([M(x, y), Atom('Tt', [x], [('total', z)])]) if rnd.random() < 0.5 else
+    rules.append(Rule('N', [x, z], body=Conj([M(x, y), Atom('Tt', [x], [('total', z)]), Neg(A('M2', x, z))]) if rnd.random() < 0.5 else
                       Disj([Conj([M(x, z)]), Conj([A('M2', x, z)]), Conj([Atom('Tt', [x], [('total', z)])])])))
     grounded.append('M2')
   elif nkind == 'two_grounds':
@@ -917,7 +917,7 @@ def c12_pairs(seed):
   A = gen.A
   x, y = Var('x'), Var('y')
   layout = ['chain', 'diamond', 'same_private', 'shared_base', 'alias', 'two_roots', 'self_apply',
-            'shared_base', 'diamond'][seed % 9]
+            'shared_base', 'diamond', 'module_functor'][seed % 10]
   files = {}
   flat = []
   roots = ('',)
@@ -990,6 +990,22 @@ def c12_pairs(seed):
     main_imports = [('m2', 'P2', None)]
     flat = (flat_module(r1, 'M1x_') + flat_module(r2, 'M2x_', {'P1': 'M1x_P1'}) +
             [rename_rule_preds(r, {'P2': 'M2x_P2'}) for r in main_rules])
+  elif layout == 'module_functor':
+    # a functor application inside an imported module (made predicates get the file prefix too),
+    # next to same-named predicates in main
+    src_b = rnd.choice([A('E', x, y), A('F', y, x)])
+    alt_b = rnd.choice([A('F', x, y), A('E', y, x)])
+    mod = [Rule('Src', [x], body=src_b), Rule('Alt', [x], body=alt_b),
+           Rule('Fn', [x], body=Conj([A('Src', x), A('G', x)])),
+           Rule('P1', [x], body=Disj([A('Made', x), A('Fn', x)]))]
+    files['m1.l'] = render_module(mod, []) + 'Made := Fn(Src: Alt);\n'
+    main_rules = [Rule('Src', [x], body=A('G', x)),
+                  Rule('Made', [x], body=Conj([A('G', x), Cmp('>', x, Num(0))])),
+                  Rule('T', [x], body=Conj([A('P1', x), A('Src', x)]) if rnd.random() < 0.5 else Disj([A('P1', x), A('Made', x)]))]
+    main_imports = [('m1', 'P1', None)]
+    modp = Program(mod, [], gen.EXT)
+    made_rules = hand_substitute(modp, 'Made', 'Fn', {'Src': 'Alt'})
+    flat = flat_module(mod + made_rules, 'M1x_') + [rename_rule_preds(r, {'P1': 'M1x_P1'}) for r in main_rules]
   else:  # self_apply: a predicate applied to its own result inside the module
     step = Rule('Step', [x], value=Bin('+', x, Num(rnd.choice([1, 2]))))
     twice = Rule('Twice', [x], value=Call('Step', [Call('Step', [x], [])], []))
